@@ -15,7 +15,9 @@ FAMILY = ["empty", "with only", "with+autoescape only", "raw text", "arithmetic"
           "tests/defined", "slices/literals", "dict items/for-else", "macro defaults/kwargs", "short-circuit", "dynamic extends+super loop",
           "error at end (undefined)", "error inside include",
           "super() as operand (position k%6, chain depth m%3+1)", "super() in three operand positions per level", "macro/self.block()/import in value position",
-          "include and call block inside used captures", "host function/filter/test re-entering via macros", "custom formatter re-entering", "super() in value position + include + host callback"]
+          "include and call block inside used captures", "host function/filter/test re-entering via macros", "custom formatter re-entering", "super() in value position + include + host callback",
+          "debug() / printed loop, namespace, self, macro, State (output must not show the budget)", "block re-entering itself via self.x()",
+          "parent definition re-enters the block via self.x() under super() (depth m%3+1)", "blocks a <-> b through self under super()", "re-entry under super() with inner work, includes, value-position super()"]
 NPROC = 12
 
 
@@ -103,7 +105,9 @@ def phase1(chk, insts):
         fr = 0 if free["kind"] == "ok" else free["code"]
         bfr = 0 if big["kind"] == "ok" else big["code"]
         if fr != bfr or free.get("top") != big.get("top") or (big["kind"] == "ok" and big["same"] != 1) or big["det"] != 1 or free["det"] != 1:
-            problems.append(("budget 2^40 changes the result of the render or repetitions differ", list(inst) + [BIG], {"nofuel": outs[False][2 * i], "big": outs[False][2 * i + 1]}))
+            what = ("the output of a render with a fuel budget (2^40, never exhausted) differs from the unlimited-fuel output" if big["kind"] == "ok" and fr == 0 and big["same"] != 1
+                    else "budget 2^40 changes the result of the render or repetitions differ")
+            problems.append((what, list(inst) + [BIG], {"nofuel": outs[False][2 * i], "big": outs[False][2 * i + 1]}))
             continue
         pc = [a for a, b in big["probes"]]
         if any(a + b != BIG for a, b in big["probes"]) or any(pc[j] > pc[j + 1] for j in range(len(pc) - 1)):
